@@ -17,6 +17,7 @@ import (
 
 	"verif/internal/ev"
 	"verif/internal/gen"
+	"verif/internal/sink"
 	"verif/props"
 )
 
@@ -26,8 +27,10 @@ func init() {
 		Level: "exploration",
 		Rule: "histories over one ledger channel P and up to two sub-channels against the real watcher/local.Watcher with a scripted RegisterSubscriber: publish P v+1 (optionally locking/unlocking a sub-channel), publish sub v+1, registered(ch, version in {0, older, equal, newer than published}), progressed, concluded, start sub, stop sub, stop P (refused while sub-channels are watched, or not), repeated stops; " +
 			"all histories up to a length bound from four start configurations (exhaustive) plus random histories of length <= 25; after every operation the Register calls received, the events on every EventStream and the results of Start/StopWatching are compared with a reference model (appendix B). " +
+			"Concurrent mode: publishers of P and S1 race with outdated/equal/newer registered events (also the same registration on both channels at once); every Register call must carry versions between the newest one certainly consumed before the event and the newest one published before the call, must happen when a newer version was certainly consumed, must not happen more than once or without a newer version, and relaying is exact; also under the race detector (a race inside watcher/local is a violation: the property is about concurrent publishes and events). " +
 			"A case is a history (operation list); non-trivial iff it contains >= 1 registered event with a version below the published one",
-		Run: run,
+		Run:       run,
+		ChildMain: childMain,
 	})
 }
 
@@ -41,6 +44,7 @@ type regCall struct {
 	PV     int64   // parent tx version
 	Subs   []int64 // per locked sub-allocation: version of the sub-channel state, -1 if nil
 	SubIDs []int
+	Stamp  int64 // logical time of the call (concurrent mode)
 }
 
 func (r regCall) String() string {
@@ -85,7 +89,7 @@ func (rs *scriptedRS) Subscribe(_ context.Context, id channel.ID) (channel.Adjud
 }
 
 func (rs *scriptedRS) Register(_ context.Context, req channel.AdjudicatorReq, subs []channel.SignedState) error {
-	c := regCall{Parent: rs.w.index(req.Tx.ID), PV: int64(req.Tx.Version)}
+	c := regCall{Parent: rs.w.index(req.Tx.ID), PV: int64(req.Tx.Version), Stamp: tick()}
 	for i, s := range subs {
 		v := int64(-1)
 		if s.State != nil {
@@ -398,7 +402,7 @@ func (w *world) do(o op, lockedAfter []int, pubAfter int64, regV int64) (out obs
 	publish := func(i int, tx channel.Transaction) string {
 		// the original plus as many copies as the pipe holds: when the last copy is accepted
 		// the original has been consumed by the watcher
-		for k := 0; k < 12; k++ {
+		for k := 0; k < pipeCap(w.pubs[i])+2; k++ {
 			done := make(chan error, 1)
 			go func() { done <- w.pubs[i].Publish(ctx, tx) }()
 			select {
@@ -694,8 +698,17 @@ func run(r *ev.Run, cfg props.Cfg) {
 	}
 	close(jobs)
 	wg.Wait()
+	// concurrent mode: publishers racing with events, interval oracle (plain build, then -race slice)
+	runConcurrent(r, cfg, cfg.Pick(1500, 30000), "main", cfg.Workers)
+	sink.RaceSlice(r, cfg, "C05", cfg.Workers/2, func(report string) (string, bool) {
+		if strings.Contains(report, "go-perun/watcher/local.") {
+			return sink.RaceSig(report), true
+		}
+		return "", false
+	})
+	r.Assume("concurrent mode: a published version counts as seen by the watcher once as many later publishes as the pipe holds (+1) have returned; as possibly seen once its Publish was called")
 	r.Assume("single ledger; every locked sub-channel is watched or was de-registered while locked (histories outside this domain are skipped and counted)")
-	r.Assume("the scripted Register always succeeds; after every operation a barrier (12 publishes of the same transaction / the watcher asking for the next event) makes its effects complete without sleeping")
+	r.Assume("the scripted Register always succeeds; after every operation a barrier (pipe capacity + 2 publishes of the same transaction / the watcher asking for the next event) makes its effects complete without sleeping")
 }
 
 func newModelWorld() *world {
